@@ -27,6 +27,7 @@ def run(tier):
     expiry_race(c)
     brief_records(c)
     far_ttl(c)
+    over_dead(c)
     c.assumptions += ["in-memory backend: real clock, 30 ms ticks; calls run at even ticks, expirations sit at odd ticks; a behaviour during "
                       "which the host stalled past its window is re-run with a doubled tick and, after 3 attempts, not judged",
                       "Redis backend: miniredis virtual clock (FastForward), 1 s ticks",
@@ -35,6 +36,24 @@ def run(tier):
                          "time advanced past some expirations up to twice, every operation kind as the first to touch the expired key) "
                          "replayed on both backends; the contract drops expired records at Advance, so any reply that differs between "
                          "'expired' and 'deleted' is a mismatch")
+
+
+def over_dead(c):
+    """A dead record (written already expired, not looked at yet) read - by Get, GetMany, or a ListKeys walking a big store -
+    and overwritten with a live record at the same instant: the live record is never dropped (WideTrace OverDead lines)."""
+    import json
+    trace = c.path("trace", "kvoverdead.ndjson")
+    if c.run_vh_crashcheck(["drive", "kvreaders", "-seed", c.seed, "-out", trace, "-x", "only=overdead"],
+                           "kv: reads racing writes over dead records took the process down", timeout=300) is None:
+        return
+    cfg = c.write_cfg("kv", "WideTrace", postcondition="Accepted")
+    ok, at, _ = c.validate_trace("kv", "WideTrace", cfg, trace, label="WideTrace-overdead")
+    if ok:
+        c.traces_validated += 2
+        return
+    ev = json.loads(open(trace).read().splitlines()[at - 1])
+    c.report_failure("kv: a live record written over a dead one was dropped by a read that ran at the same instant (in-memory)",
+                     {"rejected_at_line": at, "event": ev})
 
 
 def far_ttl(c):
